@@ -45,7 +45,8 @@ impl<K: SimKernel<D>, const D: usize> Monitor<K, D> for C10 {
             op => op.obj(),
         };
         let Some(obj) = obj else { return };
-        let Some(dt) = ctx.world.objs.get(obj).and_then(|o| o.as_ref()) else { return };
+        let Some(dt_owned) = ctx.world.objs.get(obj).and_then(|o| o.as_ref()).cloned() else { return };
+        let dt = &dt_owned;
         let rv = refval::validate(post, crate::monitors::valid::strength_of(post), false);
         if geom::embedded(post, &rv) != Tri::Yes {
             ctx.stats.bump("c10.state_not_a_geometric_triangulation");
@@ -82,64 +83,14 @@ impl<K: SimKernel<D>, const D: usize> Monitor<K, D> for C10 {
         // (start cell x target cell) sweep on small meshes: the centroid of every cell located from
         // every live cell as hint. The walk's path - and whether it circles a ring of cells before
         // its revisit check sends it to the scan - depends on exactly this pair.
-        if post.cells.len() <= 16 && rng.chance(1, 3) {
-            let coords = post.key_to_coords();
-            for target in &post.cells {
-                let mut cen = vec![0.0; D];
-                let mut ok = true;
-                for k in &target.verts {
-                    match coords.get(k) {
-                        Some(p) => {
-                            for i in 0..D {
-                                cen[i] += p[i] / (D as f64 + 1.0);
-                            }
-                        }
-                        None => ok = false,
-                    }
-                }
-                if !ok || cen.iter().any(|x| !x.is_finite()) {
-                    continue;
-                }
-                let mut arr = [0.0f64; D];
-                arr.copy_from_slice(&cen);
-                let point = Point::new(arr);
-                for start in &post.cells {
-                    let r = std::panic::catch_unwind(std::panic::AssertUnwindSafe(|| locate_with_stats(dt.tds(), &kernel, &point, Some(ckey(start.key)))));
-                    ctx.stats.executions += 1;
-                    ctx.stats.evaluations += 1;
-                    let Ok(r) = r else {
-                        push_violation(ctx.violations, violation("C10", "locate-panicked", ctx.step, "sweep".into(), format!("locate panicked for q={cen:?}")));
-                        continue;
-                    };
-                    match r {
-                        Ok((LocateResult::InsideCell(c) | LocateResult::OnFacet(c, _) | LocateResult::OnEdge(c), st)) => {
-                            if let Some(fb) = &st.fallback {
-                                ctx.stats.bump(&format!("c10.fallback.{:?}", fb.reason));
-                            }
-                            let key = c.data().as_ffi();
-                            match geom::in_cell(post, key, &cen) {
-                                Some((false, true)) => push_violation(
-                                    ctx.violations,
-                                    violation("C10", "cell-does-not-contain-point", ctx.step, format!("sweep|hint=live|budget=default|after={kind}"), format!("locate from start cell {:#x} returned cell {key:#x} for the centroid {cen:?} of cell {:#x}, which is exactly outside its closed simplex", start.key, target.key)),
-                                ),
-                                Some((_, false)) => ctx.stats.abstained += 1,
-                                _ => {}
-                            }
-                        }
-                        Ok((LocateResult::Outside, _)) => {
-                            let pos = geom::hull_position(post, &cen);
-                            if pos.decidable && pos.inside_or_on() {
-                                push_violation(
-                                    ctx.violations,
-                                    violation("C10", "outside-but-inside-hull", ctx.step, format!("sweep|hint=live|budget=default|after={kind}"), format!("locate from start cell {:#x} says Outside for the centroid {cen:?} of cell {:#x}", start.key, target.key)),
-                                );
-                            }
-                        }
-                        _ => {}
-                    }
-                }
-            }
-            ctx.stats.bump("c10.start_target_sweeps");
+        let pinwheel = ctx.header.family == "pinwheel";
+        if post.cells.len() <= 16 && (pinwheel || rng.chance(1, 3)) {
+            sweep_start_target::<K, D>(ctx, &dt_owned, post, &kind);
+        }
+        // flip-graph neighbourhood: every triangulation of the same points reachable by a few
+        // embedding-preserving k=2 flips is swept as well (small point sets only)
+        if post.cells.len() <= 10 && D <= 3 && (pinwheel || rng.chance(1, 6)) {
+            flip_graph_sweep::<K, D>(ctx, &dt_owned, post, &kind);
         }
         for q in queries {
             if q.iter().any(|x| !x.is_finite()) {
@@ -241,6 +192,123 @@ impl<K: SimKernel<D>, const D: usize> Monitor<K, D> for C10 {
                     }
                 }
             }
+        }
+    }
+}
+
+/// (start cell x target cell) sweep: the centroid of every cell, and a point towards each of its
+/// vertices, located from every live cell as hint. The walk's path - and whether it circles a ring
+/// of cells before its revisit check sends it to the scan - depends on exactly this pair.
+fn sweep_start_target<K: SimKernel<D>, const D: usize>(ctx: &mut StepCtx<'_, K, D>, dt: &crate::snap::Dt<K, D>, post: &Snap, kind: &str) {
+    let kernel = K::default();
+        let coords = post.key_to_coords();
+        for target in &post.cells {
+            let mut cen = vec![0.0; D];
+            let mut ok = true;
+            for k in &target.verts {
+                match coords.get(k) {
+                    Some(p) => {
+                        for i in 0..D {
+                            cen[i] += p[i] / (D as f64 + 1.0);
+                        }
+                    }
+                    None => ok = false,
+                }
+            }
+            if !ok || cen.iter().any(|x| !x.is_finite()) {
+                continue;
+            }
+            // the centroid and one point towards each vertex of the target cell
+            let mut targets: Vec<Vec<f64>> = vec![cen.clone()];
+            for k in &target.verts {
+                if let Some(p) = coords.get(k) {
+                    targets.push(cen.iter().zip(p.iter()).map(|(c, v)| 0.25 * c + 0.75 * v).collect());
+                }
+            }
+            for cen in targets {
+            let mut arr = [0.0f64; D];
+            arr.copy_from_slice(&cen);
+            let point = Point::new(arr);
+            for start in &post.cells {
+                let r = std::panic::catch_unwind(std::panic::AssertUnwindSafe(|| locate_with_stats(dt.tds(), &kernel, &point, Some(ckey(start.key)))));
+                ctx.stats.executions += 1;
+                ctx.stats.evaluations += 1;
+                let Ok(r) = r else {
+                    push_violation(ctx.violations, violation("C10", "locate-panicked", ctx.step, "sweep".into(), format!("locate panicked for q={cen:?}")));
+                    continue;
+                };
+                match r {
+                    Ok((LocateResult::InsideCell(c) | LocateResult::OnFacet(c, _) | LocateResult::OnEdge(c), st)) => {
+                        if let Some(fb) = &st.fallback {
+                            ctx.stats.bump(&format!("c10.fallback.{:?}", fb.reason));
+                        }
+                        let key = c.data().as_ffi();
+                        match geom::in_cell(post, key, &cen) {
+                            Some((false, true)) => push_violation(
+                                ctx.violations,
+                                violation("C10", "cell-does-not-contain-point", ctx.step, format!("sweep|hint=live|budget=default|after={kind}"), format!("locate from start cell {:#x} returned cell {key:#x} for the centroid {cen:?} of cell {:#x}, which is exactly outside its closed simplex", start.key, target.key)),
+                            ),
+                            Some((_, false)) => ctx.stats.abstained += 1,
+                            _ => {}
+                        }
+                    }
+                    Ok((LocateResult::Outside, _)) => {
+                        let pos = geom::hull_position(post, &cen);
+                        if pos.decidable && pos.inside_or_on() {
+                            push_violation(
+                                ctx.violations,
+                                violation("C10", "outside-but-inside-hull", ctx.step, format!("sweep|hint=live|budget=default|after={kind}"), format!("locate from start cell {:#x} says Outside for the centroid {cen:?} of cell {:#x}", start.key, target.key)),
+                            );
+                        }
+                    }
+                    _ => {}
+                }
+            }
+            }
+        }
+        ctx.stats.bump("c10.start_target_sweeps");
+}
+
+/// Breadth-first over the flip graph of the current point set (embedding-preserving k=2 flips
+/// only, decided exactly), on clones: depth <= 3, at most 48 distinct triangulations; each is
+/// swept with `sweep_start_target`. Deterministic: library UUIDs are seeded per visited state.
+fn flip_graph_sweep<K: SimKernel<D>, const D: usize>(ctx: &mut StepCtx<'_, K, D>, dt: &crate::snap::Dt<K, D>, post: &Snap, kind: &str) {
+    use delaunay::core::facet::FacetHandle;
+    use delaunay::triangulation::flips::BistellarFlips;
+    let mut seen: std::collections::BTreeSet<u64> = std::collections::BTreeSet::new();
+    seen.insert(post.canonical().hash64());
+    let mut frontier: Vec<(crate::snap::Dt<K, D>, Snap, usize)> = vec![(dt.clone(), post.clone(), 0)];
+    let mut visited = 0u64;
+    while let Some((cur, snap, depth)) = frontier.pop() {
+        if depth >= 3 || seen.len() >= 48 {
+            continue;
+        }
+        for (cell, facet) in crate::generate::embedded_k2_candidates(&snap, D) {
+            if seen.len() >= 48 {
+                break;
+            }
+            let mut next = cur.clone();
+            visited += 1;
+            let plan = crate::exec::Plan { faults: Vec::new(), knobs: Vec::new(), uuid_seed: crate::rng::derive(ctx.header.run_seed, "c10-flipgraph", ctx.oprec.idx * 4096 + visited), tick_limit: 0 };
+            let out = crate::exec::with_plan(&plan, || match next.flip_k2(FacetHandle::new(ckey(cell), facet)) {
+                Ok(_) => crate::exec::Outcome::unresolved("x").ok_as("flip"),
+                Err(e) => crate::exec::Outcome::unresolved("x").err_as("flip", e.to_string()),
+            });
+            ctx.stats.executions += 1;
+            if out.kind != OutKind::Ok {
+                continue;
+            }
+            let Ok(ns) = std::panic::catch_unwind(std::panic::AssertUnwindSafe(|| Snap::of(&next))) else { continue };
+            if !seen.insert(ns.canonical().hash64()) {
+                continue;
+            }
+            let rv = refval::validate(&ns, crate::monitors::valid::strength_of(&ns), false);
+            if geom::embedded(&ns, &rv) != Tri::Yes {
+                continue;
+            }
+            sweep_start_target::<K, D>(ctx, &next, &ns, kind);
+            ctx.stats.bump("c10.flip_graph_states_swept");
+            frontier.insert(0, (next, ns, depth + 1));
         }
     }
 }
